@@ -5,7 +5,8 @@
 //   dyn  the same entry points with std::vector<either<int,either<ellipsis_t,tuple<...>>>>  (shape_dynamic_slice / dynamic_slice)
 //   arr  std::vector<std::array<int,K>> (only the all-integer patterns exist in this encoding)
 //   tup  index::shape_slice / index::slice called directly with the typed slice and std::array shape / indices
-// prints  ok <len> ; src_0,...   (elements only when 0 <= len <= 64: a wrong length may be astronomically large)
+// prints  ok <len> ; src_0,...   (all elements when 0 <= len <= 64; `~ first,second,last` when 64 < len < 2^62;
+//         nothing otherwise: a wrong length may be negative or astronomically large)
 #include "nmtools/array/index/slice.hpp"
 #include "show.hpp"
 #include "c05_common.hpp"
@@ -19,6 +20,8 @@ static std::string report(ShapeOf&& shape_of, IndexOf&& index_of) {
     std::string o = "ok " + std::to_string(len) + " ;";
     if (len >= 0 && len <= 64)
         for (long long k = 0; k < len; k++) o += (k ? "," : " ") + std::to_string((long long)index_of((size_t)k));
+    else if (len > 64 && len < (1LL << 62))     // long result (large extents): first two and last source index
+        o += " ~ " + std::to_string((long long)index_of(0)) + "," + std::to_string((long long)index_of(1)) + "," + std::to_string((long long)index_of((size_t)(len - 1)));
     return o;
 }
 
